@@ -778,6 +778,19 @@ func genC19(e *emitter) {
 		fmt.Fprintf(&b, "  (%s, %s, %s)%s  -- %s %s\n", c19LeanPkg(u.Pkg), leanStr(u.Func), c19LeanUse(u.Class), sep, u.Pos, u.Expr)
 	}
 	b.WriteString("]\n\n")
+	// source text of the agent upsert (what KM.Client.agentUpsert transcribes)
+	sa := e.pkg("lib/client/sshagent")
+	srcs := map[string]string{}
+	for _, fn := range []string{"deleteDuplicateEntries", "withAddedKeyUpsertCertIntoAgentConnection"} {
+		src := "<missing>"
+		if fd := sa.funcs[fn]; fd != nil {
+			src = sa.str(fd.Body)
+		}
+		srcs[fn] = src
+		fmt.Fprintf(&b, "/-- body of lib/client/sshagent %s (go/printer, whitespace-normalised) -/\ndef %sSrc : List Char := %s.toList\n", fn, fn, leanStr(src))
+	}
+	b.WriteString("\n")
+	e.facts["c19_agent_src"] = srcs
 	b.WriteString("/-- every use of an `agent.AddedKey` value (it carries the private key): (package, function, use) -/\n")
 	b.WriteString("def clientAddedKeyUses : List (ClientPkg × String × KeyUse) := [\n")
 	for i, u := range added {
